@@ -303,6 +303,16 @@ func checkC03(tier string, seed int64) int {
 		nagg.Into(c, "depth_guard_")
 		c.Assumption("depth-guard lemma: parser.Expression is entered once per nesting level (Statement, Block, every Nud/Led recurse through it — by reading parse.go/symbol.go) and parser.Depth counts its active frames; from an arbitrary symbolic depth d one more level is parsed: the counter is restored on return, ordinary depths (< 1000) are accepted, and depths ≥ 4e6 (beyond what a 1 GB Go stack survived in native runs: 1e6 levels passed, 5e6 died) are refused. Operator / else-if chains (parsed by iteration, walked by the compiler's recursion) need inputs of ≥ 1e5 tokens and are outside what the engine reaches; the tree-depth bound added to parse() for them was checked natively only")
 	}
+	// awkward directory contents: the package search terminates and errors carry a stage prefix
+	{
+		tagg := NewAgg()
+		c.nonTerminationFails = true
+		res := c.runLemmaHarnesses([]string{"verifH_C03_trees"}, "z3", tagg)
+		c.nonTerminationFails = false
+		c.confirmLemmaFailures(res, func(id string) string { return "Load/Eval over an awkward tree: " + strings.TrimPrefix(id, "C03/trees/") })
+		tagg.Into(c, "trees_")
+		c.Assumption("tree harness: 10 directory shapes (imported directory holding only _test.go files / no .go file / only a build-excluded file / a file without package clause / a differently named package / a path naming a file; vendor and shortened-path candidates holding only test files; a Load target holding only a test file) through Load and through Eval with an import; exceeding the step bound in the loader is reported as non-termination and confirmed natively with a timeout")
+	}
 	agg.Into(c, "")
 	c.Cov("stages_reached", stages)
 	c.Cov("front_end_unwind_paths", unwindFront)
